@@ -67,7 +67,7 @@ Proof.
   - cbn. discriminate.
   - reflexivity.
   - cbn. intros e He. lia.
-  - intros t th H. unfold init in H. cbn [s_thr] in H. rewrite nth_error_map in H. destruct (nth_error progs t) as [p|] eqn:E; inversion H; subst.
+  - intros t th H. unfold init_g in H. cbn [s_thr] in H. rewrite nth_error_map in H. destruct (nth_error progs t) as [p|] eqn:E; inversion H; subst.
     cbn. repeat split; auto. apply Hp. eapply nth_error_In; eauto.
 Qed.
 
